@@ -279,7 +279,8 @@ func New(kind string, o Opts) (*Built, error) {
 			v.Set("otlp.conversion", "AsHistogram")
 		}
 		for k, d := range o.Disabled {
-			v.Set("otlp.disabled_timer_aggregations."+strings.ReplaceAll(k, "-", "_"), d)
+			// mapstructure matches the TimerSubtypes field names case-insensitively (CountPerSecond, SumSquares, StdDev ...)
+			v.Set("otlp.disabled_timer_aggregations."+strings.ReplaceAll(k, "-", ""), d)
 		}
 		b, err = otlp.NewClientFromViper(v, logger, pool)
 	case base == "graphite":
